@@ -15,7 +15,8 @@ size_t cqv_j;           /* arbitrary element index instead of a quantifier */
 /* ghosts of the encoder contracts in the same overlay (defined in stubs/plain_stubs.c; unused by the decoder jobs) */
 #include <carquet/error.h>
 struct carquet_buffer;
-extern size_t cqv_g, cqv_total; extern int cqv_watch, cqv_calls, cqv_rec_kind; extern size_t cqv_rec_size;
+extern size_t cqv_g, cqv_total; extern int64_t cqv_watch, cqv_calls; extern int cqv_rec_kind;
+extern int64_t cqv_cur, cqv_elem, cqv_el_u32_seq, cqv_el_data_seq; extern int cqv_el_has_u32, cqv_el_has_data; extern uint32_t cqv_el_u32; extern const void *cqv_el_data; extern size_t cqv_el_size; extern size_t cqv_rec_size;
 extern uint32_t cqv_rec_u32; extern uint8_t *cqv_rec_ptr; extern const void *cqv_rec_data;
 extern struct carquet_buffer *cqv_rec_buf; extern carquet_status_t cqv_rec_ret; extern int64_t cqv_cur;
 #include "src/encoding/plain.c"
@@ -85,6 +86,9 @@ void h_plain_fixed(void) {
   int64_t count = nondet_i64();
   int32_t fixed_len = nondet_i32();
   __CPROVER_assume(input_size <= CQV_MAXBUF && cqv_any_bytes <= CQV_MAXBUF);
+#ifdef CQV_FIXED_W
+  __CPROVER_assume(fixed_len == CQV_FIXED_W);   /* bounded variant: one concrete width, all counts/sizes/data */
+#endif
   __int128 prod = (__int128)count * (__int128)fixed_len;
   _Bool honest = count >= 0 && fixed_len > 0 && prod <= (__int128)CQV_MAXBUF;
   size_t out_bytes = honest ? (size_t)prod : cqv_any_bytes;
@@ -107,6 +111,9 @@ static int64_t dispatch_common(int fixed_only) {
   size_t out_bytes = cqv_any_bytes;
   if (fixed_only) {
     __CPROVER_assume(type == CARQUET_PHYSICAL_FIXED_LEN_BYTE_ARRAY);
+#ifdef CQV_FIXED_W
+    __CPROVER_assume(type_length == CQV_FIXED_W);
+#endif
     __int128 prod = (__int128)count * (__int128)type_length;
     _Bool honest = count >= 0 && type_length > 0 && prod <= (__int128)CQV_MAXBUF;
     if (honest) out_bytes = (size_t)prod;
